@@ -176,7 +176,8 @@ def run_miri(verdict, prop, gen, seed, per_shard, shards=16, param=3):
     and its dependencies).  Any Miri diagnostic is a violation; 'unsupported operation' is inconclusive."""
     import shutil
     from common import VERIF, BUILD
-    hdir = os.path.join(VERIF, "harness")
+    from common import harness_dir
+    hdir, _ = harness_dir()
     wd = os.path.join(scratch_root(), "miri-%s-%s" % (prop, gen))
     os.makedirs(wd, exist_ok=True)
     env = clean_env({"MIRIFLAGS": "-Zmiri-disable-isolation"})
